@@ -101,16 +101,24 @@ func (se *ScriptEnv) answer(ev *refbmc.Event) (byte, []byte, bool) {
 	st := se.st
 	o := se.current()
 	body := st.okBody
-	if ev.NetFn == 0x2c && len(body) > 0 && body[0] != 0xdc {
+	if ev.NetFn == 0x2c && (len(body) == 0 || body[0] != 0xdc) {
 		body = append([]byte{0xdc}, body...)
+	}
+	// a response always carries the group extension / enterprise number of its request
+	var ident []byte
+	switch {
+	case ev.NetFn == 0x2c:
+		ident = []byte{0xdc}
+	case ev.NetFn == 0x2e && len(body) >= 3:
+		ident = body[:3]
 	}
 	switch {
 	case o == "ok":
 		return 0, body, true
 	case o == "busy":
-		return 0xc0, nil, true
+		return 0xc0, ident, true
 	case o == "tmo":
-		return 0xc3, nil, true
+		return 0xc3, ident, true
 	case strings.HasPrefix(o, "cc:"):
 		var c byte
 		fmt.Sscanf(o[3:], "%x", &c)
@@ -155,6 +163,8 @@ func (se *ScriptEnv) transform(req, reply []byte) ([]byte, error) {
 	switch o {
 	case "lost":
 		return nil, nil
+	case "refused":
+		return nil, memtr.ErrRefused
 	case "garbage:empty":
 		return []byte{}, nil
 	case "garbage:rmcp":
